@@ -4,12 +4,15 @@ Imports the model only (core Lean), so it links as a `lean_exe`.
 -/
 import HpxVerif.Model.Bits
 import HpxVerif.Model.Bmoc
+import HpxVerif.Model.Layer
 
 namespace Hpx.Driver
 
 structure St where
   debug : Bool := true
   bmi : Bool := false
+
+def St.cfg (st : St) : Cfg := { debug := st.debug, bmi := st.bmi }
 
 def optNat : Option Nat → String
   | some n => toString n
@@ -121,6 +124,8 @@ def step (st : St) (line : String) : St × String :=
         | some l => bmocLine { dmax := nat! nd, entries := l }
         | none => "panic"
       | none => "bad-op")
+  | ["toring", d, h] => (st, optNat (Layer.toRing st.cfg (nat! d) (nat! h)))
+  | ["fromring", d, r] => (st, optNat (Layer.fromRing st.cfg (nat! d) (nat! r)))
   | ["touniq", d, h] => (st, optNat (toUniq (nat! d) (nat! h)))
   | ["touniqivoa", d, h] => (st, optNat (toUniqIvoa (nat! d) (nat! h)))
   | ["fromuniq", u] => (st, optPair (fromUniq (nat! u)))
